@@ -970,3 +970,36 @@ def debug_file(steps, k):
     items = [f'(HX ({coq_op(q, op)}))' for op, _, _ in steps[:k + 1]]
     body = ''.join(f'\n (HC {x}' for x in items) + ' HN' + ')' * len(items)
     return HEADER + q.defs() + f'Eval vm_compute in (option_map view_of (state_after empty (of_hsteps {body}) {k + 1})).\n'
+
+
+# ---- the same histories on the TRANSLATED SOURCE of the primitives (Gen/CircuitPrimsSrc.v) ------------------------------------
+HEADER_SRC = HEADER + '''From Coq Require Import ZArith.
+From KV Require Import Model.CircuitPrimsSrcLib Model.CircuitPrimsSrcCorr Gen.CircuitPrimsSrc.
+Definition step_s := step_src Node_init_src Node_remove_src Line_init_src Line_remove_src GrowingList_setitem_src.
+'''
+
+
+def cases_file_both(histories, src_every=1):
+    """one file, each history rendered once: hand model (as cases_file) and the run on the translated primitives (every
+    src_every-th history of the file); prints two lists"""
+    q = Strings()
+    defs, a, b = [], [], []
+    for i, st in enumerate(histories):
+        items = [(f'(HX ({coq_op(q, op)}))' if v is None else f'(HS ({coq_op(q, op)}) {"true" if clean else "false"} {coq_view(q, v)})')
+                 for op, clean, v in st]
+        defs.append(f'Definition h{i} : hsteps := ' + ''.join(f'\n (HC {x}' for x in items) + ' HN' + ')' * len(items) + '.\n')
+        a.append(f'(hist_case h{i})')
+        b.append(f'(hist_case_src step_s h{i})' if i % src_every == 0 else 'None')
+    body_a = ''.join(f'\n(CC {x}' for x in a) + ' CN' + ')' * len(a)
+    body_b = ''.join(f'\n(CC {x}' for x in b) + ' CN' + ')' * len(b)
+    return (HEADER_SRC + q.defs() + ''.join(defs) +
+            f'Definition results : cases := {body_a}.\nEval vm_compute in (failing_cases 0 (of_cases results)).\n'
+            f'Definition results_src : cases := {body_b}.\nEval vm_compute in (failing_cases 0 (of_cases results_src)).\n')
+
+
+def parse_pairs_both(out):
+    """the two printed lists of cases_file_both: (model pairs, source pairs); None where a list was not printed"""
+    import re
+    ms = re.findall(r'=\s*(\[.*?\])\s*:\s*list \(nat \* nat\)', out, flags=re.S)
+    res = [[(int(x), int(y)) for x, y in re.findall(r'\((\d+),\s*(\d+)\)', m)] for m in ms]
+    return (res[0] if len(res) > 0 else None), (res[1] if len(res) > 1 else None)
